@@ -104,6 +104,75 @@ def run(chk):
         if i % 40 == 0:
             chk.sample({"source": src, "args": args, "script": script, "gen_script": gscript})
     chk.cov["oracle"]["differential"] = stats
+    globals_between_calls(chk, rng)
+
+
+GSRC = '''
+def f(x):
+    r = abs(x) + max(x, 1)
+    t = SHIFT if x > 100 else 0
+    return (r, len([x]), t)
+'''
+
+
+def globals_between_calls(chk, rng):
+    """names the function reads from the module or the builtins are (re)bound, shadowed and deleted BETWEEN its
+    calls (the documented exception is a name rebound WHILE the call is running): every call of the
+    instrumented function does what the untouched one does at that moment"""
+    import ptera
+    ops_pool = [("set", "abs", 7), ("set", "abs", 9), ("del", "abs"), ("set", "max", 3), ("del", "max"),
+                ("set", "SHIFT", 5), ("del", "SHIFT"), ("call", -4), ("call", 2), ("call", 200), ("call", -1)]
+    n = 40 if chk.tier == "quick" else 800
+    stats = {"sequences": 0, "calls": 0}
+    for i in range(n):
+        seq = [("call", -3)] + [rng.choice(ops_pool) for _ in range(rng.randrange(3, 9))] + [("call", -5)]
+        kind = rng.choice(["tooled", "inplace", "probe:r", "probe:t", "probe:x"])
+
+        def play(mod, fcall):
+            out = []
+            for op in seq:
+                if op[0] == "set":
+                    setattr(mod, op[1], (lambda k: (lambda *a: k))(op[2]) if op[1] != "SHIFT" else op[2])
+                elif op[0] == "del":
+                    if hasattr(mod, op[1]):
+                        delattr(mod, op[1])
+                else:
+                    try:
+                        out.append(fcall(op[1]))
+                    except NameError:
+                        # (an unset global read by the function: NameError, or its subclass UnboundLocalError from
+                        # the rewritten code — the documented difference, normalised as everywhere else)
+                        out.append("NameError family")
+                    except Exception as e:
+                        out.append("%s: %s" % (type(e).__name__, e))
+            return out
+        base_mod = pyprog.make_module(GSRC, "verif_c01_gbase")
+        base = play(base_mod, base_mod.f)
+        pyprog.drop_module(base_mod)
+        mod = pyprog.make_module(GSRC, "verif_c01_ginst")
+        try:
+            if kind == "tooled":
+                g = ptera.tooled(mod.f)
+                got = play(mod, g)
+            elif kind == "inplace":
+                ptera.tooled.inplace(mod.f)
+                got = play(mod, mod.f)
+            else:
+                with ptera.probing("f > %s" % kind.split(":")[1], env=mod.__dict__):
+                    got = play(mod, mod.f)
+        except Exception as e:
+            got = "activation: %s: %s" % (type(e).__name__, e)
+        finally:
+            pyprog.drop_module(mod)
+        stats["sequences"] += 1
+        stats["calls"] += sum(1 for o in seq if o[0] == "call")
+        chk.count(("globals", kind, tuple(seq)), nontrivial=any(o[0] != "call" for o in seq))
+        chk.dist("globals-between-calls:" + kind.split(":")[0])
+        if got != base:
+            chk.violation("oracle", "%s: with module globals (re)bound between the calls the instrumented function "
+                          "gives %r, the untouched one %r" % (kind, got, base),
+                          {"source": GSRC, "sequence": seq, "variant": kind, "untouched": base, "instrumented": got})
+    chk.cov["oracle"]["globals_between_calls"] = stats
 
 
 def replay(chk, path):
